@@ -56,6 +56,20 @@ ConstM(t, m) ==
         IN IF den = 0 THEN Undef ELSE (IF t.sg < 0 THEN (m - v) % m ELSE v))
   ELSE (IF t.d = 0 \/ t.d % m = 0 THEN Undef ELSE (ModM(t.n, m) * InvM(ModM(t.d, m), m)) % m)
 
+(* an integer-valued exponent expression reduced modulo m1 = m - 1 (Fermat: b^(m-1) = 1 for b # 0, so b^E = b^(E mod (m-1)) for every
+   integer E, negative ones included). This gives huge exponents a meaning - literals of any length, sums and products of them -
+   where the small-rational view gives up. -1: not an integer expression. *)
+RECURSIVE ExpM(_,_,_)
+ExpM(t, pt, m1) ==
+  CASE t.k = "c" -> (IF HasDigits(t) THEN (IF t.sc # 0 \/ ("xf" \in DOMAIN t /\ t.xf = 1) THEN -1 ELSE LET v == FoldDigits(t.dg, 0, m1) IN IF t.sg < 0 THEN (m1 - v) % m1 ELSE v)
+                     ELSE IF t.d = 1 THEN ModM(t.n, m1) ELSE -1)
+    [] t.k = "v" -> ModM(ValAt(pt, t.id), m1)
+    [] t.k = "neg" -> (LET c == ExpM(t.c, pt, m1) IN IF c < 0 THEN -1 ELSE (m1 - c) % m1)
+    [] t.k \in {"add", "sub", "mul"} -> (LET l == ExpM(t.l, pt, m1)  r == ExpM(t.r, pt, m1) IN
+          IF l < 0 \/ r < 0 THEN -1 ELSE
+          CASE t.k = "add" -> (l + r) % m1 [] t.k = "sub" -> (l - r + m1) % m1 [] OTHER -> ((l % m1) * (r % m1)) % m1)
+    [] OTHER -> -1
+
 (* evaluation in F_m: a field element, Undef, or Falsified *)
 RECURSIVE EvalM(_,_,_)
 EvalM(t, pt, m) ==
@@ -66,7 +80,9 @@ EvalM(t, pt, m) ==
                          IF c = UndefQ \/ c[2] # 1 \/ c[1] < 0 \/ c[1] > 400 THEN Undef ELSE FactM(c[1], m)
     [] t.k \in {"sgn","abs"} -> LET c == EvalM(t.c, pt, m) IN IF c < 0 THEN c ELSE Fn(t.k, c, m)
     [] t.k = "pow" -> LET b == EvalM(t.l, pt, m)  e == EvalQ(t.r, pt) IN
-          IF b < 0 THEN b ELSE IF e = UndefQ \/ e[2] # 1 THEN Undef
+          IF b < 0 THEN b
+          ELSE IF e = UndefQ THEN (LET x == ExpM(t.r, pt, m - 1) IN IF x < 0 \/ b = 0 THEN Undef ELSE PowM(b, x, m))
+          ELSE IF e[2] # 1 THEN Undef
           ELSE IF e[1] >= 0 THEN PowM(b, e[1], m)
           ELSE IF b = 0 THEN Undef ELSE PowM(InvM(b, m), -e[1], m)
     [] OTHER -> LET l == EvalM(t.l, pt, m)  r == EvalM(t.r, pt, m) IN
